@@ -13,7 +13,9 @@ LEVEL = "proof"
 RULE = ("generated npm universes (packages, versions, four dependency sections + bundleDependencies, bundle trees of "
         "depth <= 3, aliases incl. scoped names, is_default) served by an in-process fake pb.InsightsClient; observed: "
         "histories of the four APIClient calls on plain and mangled names, the npm graph over APIClient vs LocalClient, "
-        "16 goroutines sharing one APIClient (also under -race); counted as non-trivial: universes with a nested bundle "
+        "16 goroutines sharing one APIClient (also under -race), resolving or, in every second case, half of them "
+        "issuing the four calls directly (Requirements of a root then the recorded calls on its mangled names; two "
+        "of them without Requirements, judged as unknown-or-canonical); counted as non-trivial: universes with a nested bundle "
         "or an alias, and resolutions whose two graphs are equal and have more than two nodes")
 TRUSTED = [
     "Coq 8.16.1 kernel; vm_compute for the examples and the constants obligation",
@@ -32,8 +34,15 @@ ASSUMPTIONS = [
     "commutation and interleaving theorems)",
     "critical sections are atomic steps in the model; physical data races and the Go memory model are outside it and "
     "are covered only by the -race runs",
-    "sort.Slice is modelled as a stable insertion sort, which is what Go runs for at most 12 elements; generated "
-    "responses stay within 12 flattened dependencies and 12+2 bundled entries",
+    "sort.Slice is modelled as a stable insertion sort, which is what Go runs for at most 12 elements; 19 in 20 "
+    "universes stay within that range and are compared exactly, 1 in 20 has 13-20 flattened dependencies and/or "
+    "bundled entries in one response and is compared up to the order of each returned list (clauses and graphs are "
+    "order-insensitive anyway; graph differences there fall under F-C18-2 only when tie_reorder_only holds)",
+    "in 1 of 10 universes the fake service answers with canonicalised keys (another letter case for names, "
+    "GetVersion reporting 1.0.0 for 1.0.0+build): C18 then requires every answer to carry the key that was asked "
+    "(the four calls, LocalClient and hence the graphs are keyed by it); the model's service record returns no keys",
+    "wf_reqs, plain and the no-> condition on versions are the Coq predicates evaluated by the extracted model on "
+    "each response (kind api_wf), not the generator's label",
     "the npm resolver and LocalClient are not modelled here (C06/C14): graph equality API vs Local and the trace "
     "discipline of the resolver are decided by the direct oracle on the Go outputs",
 ]
@@ -177,13 +186,49 @@ def build_history(rng, u, cls):
     return ops, tags, idx, roots
 
 
+def unordered(line):
+    """a result line with every returned list sorted"""
+    try:
+        res = parse_sx(line)
+    except Exception:
+        return line
+    out = []
+    for a in res:
+        if isinstance(a, list) and len(a) == 2 and a[0] == b"ok" and isinstance(a[1], list) and all(isinstance(x, list) for x in a[1]):
+            out.append([b"ok", sorted(a[1], key=sx)])
+        else:
+            out.append(a)
+    return sx(out)
+
+
 def table_queries(ops):
     return sorted({(o[1], o[2]) for o in ops if o[0] == 3 and b">" not in o[1]})
 
 
 # ----------------------------------------------------------------------------- the clauses of C18 on call results
 
-def check_clauses(ctx, case_text, u, cls, ops, tags, idx, results, keys):
+def hypotheses(ctx, unis, with_model):
+    """per universe: {(name, version): (wf_reqs, plain name, no > in version)}. With the model available these are
+    the Coq predicates of the theorems evaluated on the response (kind api_wf); without it (oracle_only) the
+    generator's label stands in for wf_reqs."""
+    out = []
+    if with_model:
+        lines = ctx.model("api_wf", [sx(G.universe_sx(u)) for u, _, _ in unis])
+        for (u, cls, _), l in zip(unis, lines):
+            h = {}
+            for n, v, wf, pl, vp in parse_sx(l):
+                h[(n, v)] = (bool(wf), bool(pl), bool(vp))
+                lab = cls.get((n, v), "none") in ("none", "wf", "noprefix")
+                if bool(wf) != lab:
+                    ctx.count("hypotheses:wf_reqs-differs-from-generator-label")
+            out.append(h)
+    else:
+        for u, cls, _ in unis:
+            out.append({k: (c in ("none", "wf"), b">" not in k[0], b">" not in k[1]) for k, c in cls.items()})
+    return out
+
+
+def check_clauses(ctx, case_text, u, hyp, ops, tags, idx, results, keys):
     depk, verk = keys
     K_DERIVED, K_KNOWN = verk["DerivedFrom"], depk["KnownAs"]
     base = {0: [], 1: [[depk["Dev"], b""]], 2: [[depk["Opt"], b""]], 3: [[depk["Scope"], b"peer"]]}
@@ -197,9 +242,10 @@ def check_clauses(ctx, case_text, u, cls, ops, tags, idx, results, keys):
                       required=required)
 
     for t, r in by_tag.items():
-        if t[0] == "pre" and r != [b"notfound"]:
-            # nothing in C18 forbids knowing a bundle early, but nothing can have stored it yet
-            viol("a mangled name is known before any Requirements call", r, '("notfound")')
+        if t[0] == "pre":
+            # nothing in C18 forbids knowing a bundle before Requirements of its root (an eager prefetch would):
+            # counted, not judged
+            ctx.count("pre-requirements:" + ("unknown" if r == [b"notfound"] else "already-known"))
 
     def attrs_with(bs, k, v):
         return sorted(bs + [[k, v]], key=lambda p: (p[0] >= 0, p[0] if p[0] >= 0 else -p[0]))
@@ -208,10 +254,12 @@ def check_clauses(ctx, case_text, u, cls, ops, tags, idx, results, keys):
         if ("rootreq", root, 0) not in by_tag:
             continue
         rr = by_tag[("rootreq", root, 0)]
-        wf = cls[root] in ("none", "wf")
+        wf, plain_root, _ = hyp[root]
+        svc_plain = all(h[2] for h in hyp.values())
         u_pkg = next(p for p in u["pkgs"] if p["name"] == root[0])
         failing = u_pkg["fail"] & 4
-        if failing or not wf:
+        ctx.count("hypotheses:wf_reqs" if wf else "hypotheses:not-wf_reqs")
+        if failing or not wf or not plain_root:
             continue
         if rr[0] != b"ok":
             viol("Requirements of a version the service describes fails", rr, '("ok" ...)')
@@ -238,7 +286,7 @@ def check_clauses(ctx, case_text, u, cls, ops, tags, idx, results, keys):
             b = e["b"]
             ver = [[NPM_SYS[0], e["m"], 1, b["version"]], [[K_DERIVED, b["name"]]]]
             req = [[NPM_SYS[0], e["m"], 2, b["version"]], []]
-            for phase in (0, 1):
+            for phase in ((0, 1) if svc_plain else (0,)):
                 tv = by_tag.get(("versions", root, i, phase))
                 if tv is None:
                     continue
@@ -321,11 +369,41 @@ def tie_reorder_only(ta, tl):
     return reordered
 
 
-def classify_graph(u, ga, gl, ta, tl, wf):
+def failure_reachable(u, root):
+    """can a resolution of root ask the service about a package that fails?  Over-approximated by the closure of
+    the names occurring in the dependency sections, bundleDependencies and bundled entries of every version of
+    every package reachable from the root by name."""
+    by = {p["name"]: p for p in u["pkgs"]}
+    if not any(p.get("fail") for p in u["pkgs"]):
+        return False
+    if any("vers" not in p for p in u["pkgs"]):
+        return True
+    seen, todo = set(), [root[0]]
+    while todo:
+        n = todo.pop()
+        if n in seen:
+            continue
+        seen.add(n)
+        p = by.get(n)
+        if p is None:
+            continue
+        if p["fail"]:
+            return True
+        for v in p["vers"]:
+            for d in [v["deps"]] + [b["deps"] for b in v["bundled"]]:
+                for n2, _ in spec_reqs(d):
+                    todo.append(n2)
+                for sec in d["sec"]:
+                    todo += [n2 for n2, _ in sec]
+            todo += [b["name"] for b in v["bundled"]]
+    return False
+
+
+def classify_graph(u, root, ga, gl, ta, tl, wf):
     """returns None when equal, else a class name; 'F-C18-1' / 'F-C18-2' for the known classes"""
     if ga == gl:
         return None
-    if any(p["fail"] for p in u["pkgs"]):
+    if failure_reachable(u, root):
         return "skip:service-failure"
     if not wf:
         return "skip:malformed-bundle-tree"
@@ -455,8 +533,15 @@ def run(ctx, with_model=True):
     unis = []
     for i in range(n_uni):
         strict = rng.random() < 0.8
-        u, cls = G.gen_universe(rng, big=(i % 25 == 24), strict=strict)
+        large = (i % 20 == 19)
+        canon = rng.choice([1, 2, 3]) if rng.random() < 0.10 else 0
+        u, cls = G.gen_universe(rng, big=(i % 25 == 24), strict=strict, large=large, canon=canon)
+        u["large"] = large
         unis.append((u, cls, strict))
+        if large:
+            ctx.count("universe:large(13-20 entries)")
+        if canon:
+            ctx.count("universe:service-answers-with-canonicalised-keys")
         nb = sum(len(v["bundled"]) for p in u["pkgs"] for v in p["vers"])
         nested = any(b"/node_modules/" in b["path"][13:] for p in u["pkgs"] for v in p["vers"] for b in v["bundled"])
         alias = any(r.startswith(b"npm:") for p in u["pkgs"] for v in p["vers"]
@@ -479,11 +564,24 @@ def run(ctx, with_model=True):
     cases = []
     for (u, cls, strict), (ops, tags, idx, roots), tb in zip(unis, hist, tables):
         cases.append("(" + sx(G.universe_sx(u)) + " " + tb + " " + sx(ops) + ")")
+    hyps = hypotheses(ctx, unis, with_model)
     if with_model:
-        impl, _ = ctx.correspond("api", cases)
+        # large universes leave the range where sort.Slice is an insertion sort: answers are compared up to the
+        # order of each returned list there (requirements with tying keys, equally long bundle paths)
+        small = [i for i, (u, _, _) in enumerate(unis) if not u["large"]]
+        big = [i for i, (u, _, _) in enumerate(unis) if u["large"]]
+        impl = [None] * len(cases)
+        o1, _ = ctx.correspond("api", [cases[i] for i in small])
+        for i, o in zip(small, o1):
+            impl[i] = o
+        if big:
+            o2, _ = ctx.correspond("api", [cases[i] for i in big], label="api(large, order-insensitive)",
+                                   compare=lambda x, y: unordered(x) == unordered(y))
+            for i, o in zip(big, o2):
+                impl[i] = o
     else:
         impl = ctx.impl("api", cases)
-    for (u, cls, strict), (ops, tags, idx, roots), case, line in zip(unis, hist, cases, impl):
+    for (u, cls, strict), hyp, (ops, tags, idx, roots), case, line in zip(unis, hyps, hist, cases, impl):
         res = parse_sx(line)
         ctx.count("history:ops", len(ops))
         if res == [b"panic"] or len(res) != len(ops):
@@ -493,7 +591,7 @@ def run(ctx, with_model=True):
             if r == [b"panic"]:
                 ctx.violation("an APIClient call panicked", "api\t" + case, observed=line[:2000])
                 break
-        check_clauses(ctx, "api\t" + case, u, cls, ops, tags, idx, res, keys)
+        check_clauses(ctx, "api\t" + case, u, hyp, ops, tags, idx, res, keys)
         if len(ctx.samples) < 2 and any(len(v) > 2 for v in idx.values()):
             ctx.sample({"kind": "api", "case": case[:600], "impl": line[:400]})
 
@@ -526,7 +624,7 @@ def run(ctx, with_model=True):
             ctx.violation("npm resolution panicked (%s)" % ("API" if ga == [b"panic"] else "Local"), "api_graph\t" + case,
                           observed=sx([ga, gl])[:3000])
             continue
-        c = classify_graph(u, ga, gl, ta, tl, wf)
+        c = classify_graph(u, r, ga, gl, ta, tl, wf)
         ctx.count("graph:" + ("equal:" + ga[0].decode() if c is None else c))
         if c == "violation":
             ctx.violation("graph over APIClient differs from graph over LocalClient holding the same data",
@@ -539,7 +637,7 @@ def run(ctx, with_model=True):
                 ctx.sample({"kind": "api_graph", "case": case[:500], "graph_api": sx(ga)[:400], "graph_local_equal": True,
                             "resolver_calls": len(ta)})
         trace_cases.append([o for o, _ in ta])
-        trace_meta.append((usx, r, ta, case))
+        trace_meta.append((usx, r, ta, case, bool(u.get("large"))))
         tq2.append("(" + usx + " " + sx([[n, q] for n, q in table_queries([o for o, _ in ta])]) + ")")
     # trace discipline (hypothesis of C18_interleaving / C18_lazy_eq_eager) on the recorded API traces,
     # and the model replayed on exactly the calls the resolver made
@@ -547,18 +645,18 @@ def run(ctx, with_model=True):
         wfs = ctx.model("api_tracewf", [sx(t) for t in trace_cases])
         tabs = ctx.impl("api_table", tq2)
         mcases = ["(" + usx + " " + tb + " " + sx(t) + ")"
-                  for (usx, r, ta, case), tb, t in zip(trace_meta, tabs, trace_cases)]
+                  for (usx, r, ta, case, lg), tb, t in zip(trace_meta, tabs, trace_cases)]
         mout = ctx.model("api", mcases)
         ctx.count("corr:api(resolver-trace)", len(mcases))
         ctx.evaluations += len(mcases)
         nd = 0
-        for (u, r, ta, case), w, mo, mc in zip(trace_meta, wfs, mout, mcases):
+        for (u, r, ta, case, lg), w, mo, mc in zip(trace_meta, wfs, mout, mcases):
             ctx.count("trace:calls", len(ta))
             if w != "1":
                 ctx.violation("the npm resolver passed a mangled name to the client before Requirements of its root "
                               "(trace discipline of C18 broken)", "api_graph\t" + case, observed=sx([o for o, _ in ta])[:3000])
             want = sx([a for _, a in ta])
-            if mo != want:
+            if mo != want and not (lg and unordered(mo) == unordered(want)):
                 if '"oom"' in mo:
                     ctx.skipped_oom += 1
                     continue
@@ -572,7 +670,9 @@ def run(ctx, with_model=True):
     ccases = []
     for (u, cls, strict), (ops, tags, idx, roots) in list(zip(unis, hist))[:n_conc]:
         rs = sorted(roots, key=lambda r: -len(idx[r]))[:4]
-        ccases.append("api_conc\t" + sx([G.universe_sx(u), [[r[0], r[1]] for r in rs], 16, rounds]))
+        # every second case: the odd goroutines call the client directly (Requirements of the root, then the
+        # resolver's recorded calls on that root's mangled names) while the even ones resolve
+        ccases.append("api_conc\t" + sx([G.universe_sx(u), [[r[0], r[1]] for r in rs], 16, rounds, len(ccases) % 2]))
 
     def judge(results, racelog, label):
         for l, r, err in results:
@@ -598,7 +698,7 @@ def run(ctx, with_model=True):
         rcases = ccases[:n_race]
         if ctx.thorough():
             # soak: more rounds on the universes with the most bundles
-            rcases = rcases + [c.rsplit(" ", 1)[0] + " 6)" for c in ccases[:400]]
+            rcases = rcases + [c.rsplit(" ", 2)[0] + " 6 " + c.rsplit(" ", 1)[1] for c in ccases[:400]]
         res, racelog = run_conc(ctx, racebin, rcases, race=True)
         judge(res, racelog, "race")
         ctx.extra["race_detector"] = "go build -race: %d cases, 16 goroutines each" % len(rcases)
